@@ -1558,7 +1558,7 @@ class MPO(MPSGeometry):
         s_norm = self.overlap(self, understood_infinite=True, num_sites=num_sites)
         o_norm = other.overlap(other, understood_infinite=True, num_sites=num_sites)
         dist = abs(s_norm - 2 * np.real(ov) + o_norm)
-        return dist < eps * abs(s_norm + o_norm)
+        return dist <= eps * abs(s_norm + o_norm)
 
     def apply(self, psi, options):
         """Apply `self` to an MPS `psi` and compress `psi` in place.
